@@ -205,7 +205,7 @@ def impl_one(case, shared):
             except BaseException as e:      # noqa: BLE001
                 vals[k] = 'exc:' + type(e).__name__
         o['values'] = vals
-    if not o['emitting'] and ways and all(v is not None for v in ways.values()):
+    if not o['emitting'] and ways and all(v is not None and v.LAGS >= 0 and v.LEADS >= 0 for v in ways.values()):   # lengths, not negative
         sol = {}
         for k, v in ways.items():
             try:
